@@ -1,8 +1,7 @@
-pub mod types {
 use vstd::prelude::*;
 use crate::error::*;
 
-//@item rodbus/src/types.rs | UnitId
+//@item rodbus/src/types.rs | UnitId | structeq
 //@item rodbus/src/types.rs | AddressRange
 //@item rodbus/src/types.rs | ReadBitsRange
 //@item rodbus/src/types.rs | ReadRegistersRange
@@ -45,6 +44,8 @@ impl UnitId {
 //@|    ensures r.value == value,
 //@fn rodbus/src/types.rs | UnitId::broadcast | tags=C17
 //@|    ensures r.value == 0,
+//@fn rodbus/src/types.rs | UnitId::is_rtu_reserved | tags=C06
+//@|    ensures r == (self.value >= 248),
 }
 
 //@fn rodbus/src/types.rs | coil_from_u16 | tags=C01,C02,C04
@@ -129,4 +130,3 @@ impl<'a> BitIterator<'a> {
 //@|        old(self).pos < old(self).range.count ==> r == Some(old(self).spec_item(old(self).pos as int))
 //@|            && final(self).pos == old(self).pos + 1,
 }
-} // mod types
